@@ -99,7 +99,7 @@ func loadWorld(repo string, ss *SpecSet, pkgDirs []string) (*World, error) {
 	}
 	w.m = newMod(ss)
 	w.m.verified = func(path string) bool {
-		return strings.HasPrefix(path, modulePath) || path == "golang.org/x/tools/txtar" || path == "golang.org/x/mod/module"
+		return strings.HasPrefix(path, modulePath) || path == "golang.org/x/tools/txtar" || path == "golang.org/x/mod/module" || path == "go/build"
 	}
 	return w, nil
 }
@@ -116,6 +116,9 @@ func (w *World) pkgDirOf(p *types.Package) (string, bool) {
 }
 
 func externKey(fn *ssa.Function) string {
+	if o := fn.Origin(); o != nil {
+		fn = o // an instantiation of a generic function is looked up under the generic's name
+	}
 	if fn.Pkg == nil {
 		if recv := fn.Signature.Recv(); recv != nil {
 			return "(" + recv.Type().String() + ")." + fn.Name()
